@@ -40,13 +40,11 @@ Fixpoint split_slash (s : str) : list str :=
            end
   end.
 
-Fixpoint join_slash (l : list str) : str :=
+(* strings.Join(l, "/") *)
+Definition join_slash (l : list str) : str :=
   match l with
   | [] => []
-  | s :: r => match r with
-              | [] => s
-              | _ => s ++ SLASH :: join_slash r
-              end
+  | s :: r => s ++ flat_map (fun x => SLASH :: x) r
   end.
 
 Definition is_empty (s : str) : bool := match s with [] => true | _ => false end.
